@@ -45,6 +45,12 @@ CLAIMED.update({
           "The source hit by a fault is not judged afterwards (any behaviour but a panic or an effect on others is accepted).", "3/C15"),
 })
 
+CLAIMED.update({
+  "C17": ("dsim", "deterministic simulation: scripted futures over Async adapters on small-buffer socketpairs/pipes, raw peers, byte-stream and wake-up oracles", "exploration",
+          "Hand-written futures move pattern bytes through poll_read / poll_write / vectored variants / flush / readable() / writable() with generated chunk sizes (1 B .. larger than the 4 KiB buffers) while the program drives the raw peer and places dispatches; oracles: every byte read equals the byte the peer wrote at that stream position (prefix at all times), a task parked on an fd that poll(2) reports ready when the batch is collected has its waker invoked by that dispatch (proxy waker), then the executor oracle demands the poll; O_NONBLOCK is set while adapted and equals the original mode after drop / into_inner / failed adapt_io; the fd leaves the poller when the adapter goes.",
+          "The futures and the Read/Write object are harness code; adapters share the fd with the simulator (fd stays open after the adapter is gone, the harsher case).", "3/C17"),
+})
+
 NOT_APPLICABLE = {
   "C20": "pure function of its inputs (shift/mask arithmetic, a counter): no schedule, clock, fault or history for a simulator to control; exhaustive enumeration or proof would be the right tool, which is outside this technique family",
 }
